@@ -951,12 +951,16 @@ func (e *endpoint) HandlePacket(r *stack.Route, id stack.TransportEndpointID, vv
 	log.Println("@传输层 udp: handlepacket 从网络层接收到udp数据包 进行处理 ")
 	// Get the header then trim it from the view.
 	hdr := header.UDP(vv.First())
-	if int(hdr.Length()) > vv.Size() {
+	if int(hdr.Length()) > vv.Size() || hdr.Length() < header.UDPMinimumSize {
 		// Malformed packet.
 		// 错误报文
 		e.stack.Stats().UDP.MalformedPacketsReceived.Increment()
 		return
 	}
+
+	// The UDP length field delimits the datagram; anything the network layer
+	// carried beyond it is not part of the payload.
+	vv.CapLength(int(hdr.Length()))
 
 	// 去除UDP首部
 	vv.TrimFront(header.UDPMinimumSize)
